@@ -710,7 +710,37 @@ def check_rh_emit(ctx, led, v, rule="C12.emit"):
     )
 
 
+def check_eq_ordered_maps(ctx, led, v, rule):
+    """An == that compares two OrderedDicts whose order is the order in which the fields were
+    written is order-sensitive (OrderedDict.__eq__ compares in order): two objects that differ in
+    the order of their fields only compare unequal.  The pair analysis cannot see it (both objects
+    of a pair are built in one field order), the interpreter records the comparison."""
+    om = get_model(ctx, v)
+    seen = set()
+    for e in om.ev.events:
+        if e.kind != "ordered_map_eq":
+            continue
+        ck = "%s::%s" % (e.func.qualname if e.func else "?", short(e.node))
+        if ck in seen:
+            continue
+        seen.add(ck)
+        led.violation(
+            rule + ".order",
+            ck,
+            e.where(),
+            "%s: OrderedDict equality also compares the order of the entries, so objects that define the same metric values in "
+            "another field order compare unequal" % e.data.get("what"),
+        )
+
+
 def check_eq_pairs(ctx, led, v, rule="C07.eq.pair"):
+    try:
+        _check_eq_pairs(ctx, led, v, rule)
+    finally:
+        check_eq_ordered_maps(ctx, led, v, rule[: -len(".pair")] if rule.endswith(".pair") else rule)
+
+
+def _check_eq_pairs(ctx, led, v, rule="C07.eq.pair"):
     """== on two objects that differ in one metric only.  A second object is constructed in the
     same abstract state with metric k a fresh symbol (everything else shared); `x == y` is
     interpreted and must be, as a table over the two values of k, exactly "both give k the same
